@@ -85,7 +85,10 @@ def write_cfg(path, spec="Spec", constants=None, invariants=(), properties=(), c
     if constants:
         lines.append("CONSTANTS")
         for k, v in constants.items():
-            lines.append("  %s = %s" % (k, v))
+            if isinstance(v, str) and v.startswith("<-"):
+                lines.append("  %s %s" % (k, v))
+            else:
+                lines.append("  %s = %s" % (k, v))
     if constraint:
         lines.append("CONSTRAINT " + constraint)
     if view:
